@@ -18,7 +18,7 @@ impl Sandbox {
         let base = if Path::new("/dev/shm").is_dir() { PathBuf::from("/dev/shm") } else { std::env::temp_dir() };
         let n = SANDBOX_SEQ.fetch_add(1, Ordering::Relaxed);
         // the path is the same for every run of a process so traces do not depend on it
-        let root = base.join(format!("tftpd-sim-{}", std::process::id())).join("sb");
+        let root = base.join(format!("tftpd-sim-{:07}", std::process::id())).join("sb");
         let _ = std::fs::remove_dir_all(&root);
         std::fs::create_dir_all(&root).expect("sandbox");
         let _ = n;
@@ -47,7 +47,7 @@ impl Drop for Sandbox {
 
 pub fn cleanup_process_sandbox() {
     let base = if Path::new("/dev/shm").is_dir() { PathBuf::from("/dev/shm") } else { std::env::temp_dir() };
-    let _ = std::fs::remove_dir_all(base.join(format!("tftpd-sim-{}", std::process::id())));
+    let _ = std::fs::remove_dir_all(base.join(format!("tftpd-sim-{:07}", std::process::id())));
 }
 
 /// Position-coded content: every aligned 8-byte record is unique, so any misplaced,
